@@ -215,6 +215,7 @@ where
         let r = f().await;
         let sim_ns = world::with(|w| {
             w.drop_timers();
+            w.frozen = true;
             w.now_ns()
         });
         (r, sim_ns)
